@@ -208,10 +208,40 @@ func (c *Ctx) parallel(n int, fn func(i int), onPanic func(i int, r any)) (compl
 	if n > 0 {
 		rot = int(uint64(c.Seed) % uint64(n))
 	}
+	// watchdog: code without a step hook (Compile, Escape, the parsers) can loop forever; a goroutine cannot be
+	// killed, so an item that is still running after stuckLimit is reported as non-termination and the process
+	// ends with the normal violation exit path
+	cur := make([]atomic.Int64, W)   // item index + 1 (0 = idle)
+	since := make([]atomic.Int64, W) // unix nanoseconds at which that item started
+	quit := make(chan struct{})
+	go func() {
+		t := time.NewTicker(2 * time.Second)
+		defer t.Stop()
+		for {
+			select {
+			case <-quit:
+				return
+			case <-t.C:
+				for w := 0; w < W; w++ {
+					i := cur[w].Load()
+					if i != 0 && time.Now().UnixNano()-since[w].Load() > int64(stuckLimit()) {
+						if onPanic != nil {
+							onPanic(int(i-1), fmt.Sprintf("non-termination: this case was still running after %v (no step hook on this path, e.g. an endless loop in Compile)", stuckLimit()))
+						}
+						c.NotExhaustive("a case did not terminate; the run was ended by the watchdog")
+						os.Exit(c.Finish())
+					}
+				}
+			}
+		}
+	}()
+	defer close(quit)
 	for w := 0; w < W; w++ {
 		wg.Add(1)
+		w := w
 		go func() {
 			defer wg.Done()
+			defer cur[w].Store(0)
 			for {
 				k := int(next.Add(1)) - 1
 				if k >= n {
@@ -224,6 +254,8 @@ func (c *Ctx) parallel(n int, fn func(i int), onPanic func(i int, r any)) (compl
 					return
 				}
 				i := (k + rot) % n
+				since[w].Store(time.Now().UnixNano())
+				cur[w].Store(int64(i) + 1)
 				func() {
 					defer func() {
 						if r := recover(); r != nil {
@@ -239,6 +271,14 @@ func (c *Ctx) parallel(n int, fn func(i int), onPanic func(i int, r any)) (compl
 	}
 	wg.Wait()
 	return !stopped.Load()
+}
+
+// stuckLimit is the wall-clock time after which one enumerated case counts as non-terminating (VERIF_STUCK_S).
+func stuckLimit() time.Duration {
+	if v, err := strconv.Atoi(os.Getenv("VERIF_STUCK_S")); err == nil && v > 0 {
+		return time.Duration(v) * time.Second
+	}
+	return 120 * time.Second
 }
 
 func panicText(r any) string {
